@@ -1201,6 +1201,46 @@ theorem lcc_nc_careful_oblate (E : Ell ℝ) (t1 t2 : ℝ) (hfm : 0 < E.fm) (h12 
       = Real.sqrt (max 0 (1 - nd.1) * (1 + nd.1)) :=
   Proofs.ConicInit.lccNcCareful_oblate E t1 t2 hfm h12 hes hes1 he2 hψ
 
+/-- non-vacuity of `lcc_nc_careful_oblate`: `f = 1/5` (`e = 3/5`), parallels at the equator and at `tan φ = 3/4` (`sin φ = 3/5`):
+    `ψ2 = ln 2 − (3/10) ln(17/8) ≠ 0 = ψ1` -/
+example : ∃ (E : Ell ℝ) (t1 t2 : ℝ), 0 < E.fm ∧ t1 ≠ t2 ∧ 0 < E.es ∧ E.es < 1 ∧ E.e2 = E.es ^ 2 ∧
+    Real.arsinh t2 - eatanhe (t2 / hyp t2) E.es ≠ Real.arsinh t1 - eatanhe (t1 / hyp t1) E.es := by
+  have he2 : (⟨1, 1 / 5⟩ : Ell ℝ).e2 = 9 / 25 := by simp only [Ell.e2, two_real]; norm_num
+  have hes : (⟨1, 1 / 5⟩ : Ell ℝ).es = 3 / 5 := by
+    simp only [Ell.es, he2, ltb_real, zero_real, one_real, sqrt_real, abs_real]
+    have : ¬ ((1 / 5 : ℝ) < 0) := by norm_num
+    simp only [this, decide_false, Bool.false_eq_true, if_false, one_mul]
+    rw [abs_of_pos (by norm_num), show (9 / 25 : ℝ) = (3 / 5) ^ 2 by norm_num]
+    exact Real.sqrt_sq (by norm_num)
+  have hh : hyp (3 / 4 : ℝ) = 5 / 4 := by
+    rw [hyp_real]; rw [show (1 : ℝ) + (3 / 4) ^ 2 = (5 / 4) ^ 2 by norm_num]; exact Real.sqrt_sq (by norm_num)
+  have hh0 : hyp (0 : ℝ) = 1 := by rw [hyp_real]; norm_num
+  refine ⟨⟨1, 1 / 5⟩, 0, 3 / 4, by simp only [Ell.fm, one_real]; norm_num, by norm_num, by rw [hes]; norm_num, by rw [hes]; norm_num,
+    by rw [he2, hes]; norm_num, ?_⟩
+  rw [hes, hh, hh0]
+  have hat : eatanhe ((3 / 4 : ℝ) / (5 / 4)) (3 / 5) = 3 / 5 * (Real.log (17 / 8) / 2) := by
+    simp only [eatanhe, ltb_real, zero_real, atanh_real]
+    have : (0 : ℝ) < 3 / 5 := by norm_num
+    simp only [this, decide_true, if_true]
+    norm_num
+  have hat0 : eatanhe ((0 : ℝ) / 1) (3 / 5) = 0 := by
+    simp only [eatanhe, ltb_real, zero_real, atanh_real]
+    have : (0 : ℝ) < 3 / 5 := by norm_num
+    simp only [this, decide_true, if_true]
+    norm_num
+  have has : Real.arsinh (3 / 4) = Real.log 2 := by
+    rw [Real.arsinh]
+    have : Real.sqrt (1 + (3 / 4 : ℝ) ^ 2) = 5 / 4 := by
+      rw [show (1 : ℝ) + (3 / 4) ^ 2 = (5 / 4) ^ 2 by norm_num]; exact Real.sqrt_sq (by norm_num)
+    rw [this]; norm_num
+  rw [hat, hat0, has, Real.arsinh_zero]
+  -- ln 2 > (3/10) ln(17/8)  ⇐  2^10 > (17/8)^3
+  have h1 : Real.log ((17 / 8 : ℝ) ^ 3) < Real.log ((2 : ℝ) ^ 10) := Real.log_lt_log (by norm_num) (by norm_num)
+  rw [Real.log_pow, Real.log_pow] at h1
+  intro h
+  push_cast at h1
+  linarith
+
 /-- **the same on a prolate or spherical ellipsoid** (`es ≤ 0`, `e² = −es²`), under exactly the condition whose failure is finding F80:
     the products `e²·x·y` of the three pairs `Deatanhe` is called with stay above `−1` -/
 theorem lcc_nc_careful_prolate (E : Ell ℝ) (t1 t2 : ℝ) (hfm : 0 < E.fm) (h12 : t1 ≠ t2) (hes : E.es ≤ 0) (he2 : E.e2 = -(E.es ^ 2))
